@@ -686,3 +686,15 @@ def corpus_files():
 
 def rng(extra=0):
     return random.Random(seed() * 1000003 + extra)
+
+
+def tier_rng(tier, extra=0):
+    """Quick tiers explore a fixed input set (their set of failing cases on the unchanged tree is
+    closed and fully recorded); VERIF_SEED drives the additional exploration of thorough tiers."""
+    if tier == "quick":
+        return random.Random(1000003 + extra)
+    return rng(extra)
+
+
+def tier_seed(tier):
+    return 1 if tier == "quick" else seed()
